@@ -63,6 +63,8 @@ type File struct {
 	Asm     bool   // declares a body-less function (needs the .s file)
 	// MainMethod: the entry file declares, before func main, a method that is also called main
 	MainMethod bool
+	// OneLineMain: `func main() { mainBody() }` on one line; the usual body lives in mainBody
+	OneLineMain bool
 }
 
 // Gen carries generator state.
@@ -297,7 +299,13 @@ func (f *File) Render(old bool) string {
 		w.line(0, "")
 	}
 	if f.IsMain {
-		w.line(0, "func main() {")
+		if f.OneLineMain {
+			w.line(0, "func main() { mainBody() }")
+			w.line(0, "")
+			w.line(0, "func mainBody() {")
+		} else {
+			w.line(0, "func main() {")
+		}
 		w.line(1, "total := 0")
 		for _, fn := range f.Funcs {
 			if old && fn.Status == Added {
